@@ -155,7 +155,7 @@ Section Lift.
   Qed.
   Lemma lift_range_p s bs r : range_p s = Some (bs, r) -> Forall Q bs.
   Proof.
-    unfold range_p. pose proof (lift_hyphen s) as W. destruct (hyphen_p s) as [[b r0]|]; [|apply lift_simples_p].
+    unfold range_p. pose proof (lift_hyphen (space0 s)) as W. destruct (hyphen_p (space0 s)) as [[b r0]|]; [|apply lift_simples_p].
     destruct (at_alt_end r0); [|apply lift_simples_p]. intros [= <- _]. cbn in W.
     destruct b; cbn; [constructor; [exact W|constructor]|constructor].
   Qed.
